@@ -8,9 +8,10 @@ import (
 	"strings"
 )
 
-// parseRaceLogs reads the race detector's log files of one child and turns every report whose two
-// accesses both lie inside the library into a C20 violation (de-duplicated by the pair of innermost
-// library functions, line numbers stripped). Reports with a harness-only stack on one side are harness errors.
+// parseRaceLogs reads the race detector's log files of one child and turns every report in which at least one
+// of the two accesses is performed by library code into a C20 violation (de-duplicated by the pair of accessing
+// functions, line numbers stripped). Reports in which both accesses are performed by harness code (even when the
+// harness code was called by the library, e.g. handler registration on the harness's Transport) are harness errors.
 func parseRaceLogs(dir string, idx int) (viol []Violation, reports int, raw string) {
 	files, _ := filepath.Glob(filepath.Join(dir, fmt.Sprintf("r%05d.race.*", idx)))
 	seen := map[string]bool{}
@@ -33,7 +34,9 @@ func parseRaceLogs(dir string, idx int) (viol []Violation, reports int, raw stri
 			pair := []string{a, b}
 			sort.Strings(pair)
 			switch {
-			case aok && bok:
+			case aok || bok:
+				// at least one of the two accesses is performed by library code (the other may be harness code
+				// touching memory the library handed over, e.g. request bytes read by a Transport)
 				sig := "race/" + pair[0] + "|" + pair[1]
 				if !seen[sig] {
 					seen[sig] = true
@@ -43,7 +46,7 @@ func parseRaceLogs(dir string, idx int) (viol []Violation, reports int, raw stri
 				sig := "harness-race/" + pair[0] + "|" + pair[1]
 				if !seen[sig] {
 					seen[sig] = true
-					viol = append(viol, Violation{Props: []string{"HARNESS"}, Sig: sig, Msg: "race report with a harness-only stack on one side (harness error, not a C20 violation)\n" + trimBlock(block)})
+					viol = append(viol, Violation{Props: []string{"HARNESS"}, Sig: sig, Msg: "race report in which both accesses are performed by harness code (harness error, not a C20 violation)\n" + trimBlock(block)})
 				}
 			}
 			if len(raw) < 30000 {
@@ -92,9 +95,17 @@ func accessSections(block string) [][]frame {
 	return out
 }
 
+// innermostLib names the function that performs the access: frames of the runtime, the standard library and
+// third-party packages are skipped from the top (a bytes.Buffer or gRPC frame acts on memory its caller handed
+// in); the first frame that belongs to the library or to the harness owns the access. An access made by harness
+// code - e.g. inside the harness's Transport, Log or StateMachine implementation, although called from the
+// library - is a harness matter, not a C20 violation.
 func innermostLib(fr []frame) (string, bool) {
 	for _, f := range fr {
-		if strings.HasPrefix(f.fn, "github.com/jmsadair/raft") && !strings.Contains(f.file, "raft_verif.go") && !strings.Contains(f.file, "/verif_on.go") {
+		if strings.HasPrefix(f.fn, "verif/harness") || strings.HasPrefix(f.fn, "main.") || strings.Contains(f.file, "raft_verif.go") || strings.Contains(f.file, "/verif_on.go") {
+			break
+		}
+		if strings.HasPrefix(f.fn, "github.com/jmsadair/raft") {
 			name := strings.TrimPrefix(f.fn, "github.com/jmsadair/raft")
 			name = strings.TrimPrefix(name, "/")
 			name = strings.TrimPrefix(name, ".")
